@@ -2,6 +2,9 @@ package main
 
 import (
 	"fmt"
+	"html"
+	"os"
+	"path/filepath"
 	"regexp"
 	"strings"
 
@@ -169,6 +172,9 @@ func fullCheck(res *Result, r *fullRec) {
 
 func cmdFull(args []string) *Result {
 	res := newResult()
+	if len(args) == 2 && (args[0] == "specgen" || args[0] == "speccheck") {
+		return cmdFullSpec(args)
+	}
 	if len(args) == 2 && args[0] == "--replay" {
 		rec := readReplay(args[1])
 		var r fullRec
@@ -182,5 +188,177 @@ func cmdFull(args []string) *Result {
 		fullCheck(res, &r)
 	})
 	res.Traces = res.Evaluations
+	return res
+}
+
+// ---- validation of the model itself against the examples of the CommonMark specification ----
+//
+//   full specgen <out.ndjson>            one record {id, src} per example
+//   full speccheck <tlc output>          compares the model's HTML of every example with the example's HTML
+
+type specExample struct {
+	Markdown string `json:"markdown"`
+	HTML     string `json:"html"`
+	Example  int    `json:"example"`
+	Section  string `json:"section"`
+}
+
+func loadSpecExamples() []specExample {
+	data, err := os.ReadFile(filepath.Join(repoDir(), "internal", "spec", "spec-0.30.json"))
+	if err != nil {
+		die("spec examples: %v", err)
+	}
+	var exs []specExample
+	mustUnmarshal(data, &exs)
+	return exs
+}
+
+var (
+	reVoid     = regexp.MustCompile(`\s*/>`)
+	reTagGap   = regexp.MustCompile(`>\s+<`)
+	reLiStart  = regexp.MustCompile(`(<li>|<blockquote>|<ul>|<ol[^>]*>)\s+`)
+	reLiEnd    = regexp.MustCompile(`\s+(</li>|</blockquote>|</ul>|</ol>)`)
+	reAfterBlk = regexp.MustCompile(`(</h[1-6]>|</pre>|</blockquote>|</ul>|</ol>|<hr>|</p>)\s+`)
+	reNewlines = regexp.MustCompile(`\n+`)
+	reImgAttrs = regexp.MustCompile(`(<img src="[^"]*")( title="[^"]*")( alt="[^"]*")`)
+	reCharRef  = regexp.MustCompile(`&(#[0-9]{1,7}|#[xX][0-9a-fA-F]{1,6}|[A-Za-z][A-Za-z0-9]*);`)
+)
+
+// decodeRefs replaces every character reference by the character it stands for, except the characters that are
+// significant in HTML, which get one canonical spelling.
+func decodeRefs(s string) string {
+	return reCharRef.ReplaceAllStringFunc(s, func(m string) string {
+		d := html.UnescapeString(m)
+		switch d {
+		case m:
+			return m
+		case "<":
+			return "&lt;"
+		case ">":
+			return "&gt;"
+		case "&":
+			return "&amp;"
+		case "\"":
+			return "&quot;"
+		case "'":
+			return "'"
+		}
+		return d
+	})
+}
+
+// normSpec brings the spec's pretty-printed HTML and the renderer's dialect to a common form: void-tag spelling,
+// white space between tags and around block-level tags, attribute order of <img>, character references decoded.
+func normSpec(s string) string {
+	var sb strings.Builder
+	for len(s) > 0 {
+		i := strings.Index(s, "<pre")
+		if i < 0 {
+			sb.WriteString(normSpecPiece(s))
+			break
+		}
+		sb.WriteString(strings.TrimSuffix(normSpecPiece(s[:i]+"<pre>"), "<pre>"))
+		j := strings.Index(s[i:], "</pre>")
+		if j < 0 {
+			sb.WriteString(decodeRefs(s[i:]))
+			break
+		}
+		sb.WriteString(decodeRefs(s[i : i+j+6]))
+		s = s[i+j+6:]
+		s = strings.TrimLeft(s, " \t\r\n")
+	}
+	return strings.TrimSpace(sb.String())
+}
+
+func normSpecPiece(s string) string {
+	s = reVoid.ReplaceAllString(s, ">")
+	s = reTagGap.ReplaceAllString(s, "><")
+	s = reLiStart.ReplaceAllString(s, "$1")
+	s = reLiEnd.ReplaceAllString(s, "$1")
+	s = reAfterBlk.ReplaceAllString(s, "$1")
+	s = reImgAttrs.ReplaceAllString(s, "$1$3$2")
+	s = decodeRefs(s)
+	s = normEdge(s)
+	return reNewlines.ReplaceAllString(s, "\n")
+}
+
+// outOfModelScope names the reason why an example is outside what Full.tla models, or "".
+func outOfModelScope(md string) string {
+	for _, m := range reCharRef.FindAllStringSubmatch(md, -1) {
+		name := m[1]
+		if name[0] != '#' && html.UnescapeString(m[0]) != m[0] && !fullEntityNames[name] {
+			return "entity name outside the model's table"
+		}
+	}
+	for i := 0; i < len(md); i++ {
+		if md[i] >= 0x80 {
+			return "non-ASCII text next to delimiter runs or in labels (Unicode classes and case folding are tables of Emphasis.tla / Refs.tla)"
+		}
+	}
+	return ""
+}
+
+var fullEntityNames = map[string]bool{"amp": true, "lt": true, "gt": true, "quot": true, "copy": true, "xmap": true, "ap": true, "map": true, "malt": true,
+	"mp": true, "pm": true, "Gamma": true, "Gt": true, "lap": true, "lat": true, "ll": true}
+
+func cmdFullSpec(args []string) *Result {
+	res := newResult()
+	exs := loadSpecExamples()
+	switch args[0] {
+	case "specgen":
+		f, err := os.Create(args[1])
+		if err != nil {
+			die("%v", err)
+		}
+		defer f.Close()
+		for _, ex := range exs {
+			fmt.Fprintf(f, "{\"id\":%d,\"src\":%s}\n", ex.Example, jsonString(ints([]byte(ex.Markdown))))
+		}
+		res.Extra["examples"] = len(exs)
+	case "speccheck":
+		byID := map[int]specExample{}
+		for _, ex := range exs {
+			byID[ex.Example] = ex
+		}
+		agree, differ := 0, []map[string]any{}
+		outScope := map[string]int{}
+		forEachTLCRecord(args[1], func(raw []byte) {
+			var r struct {
+				ID   int     `json:"id"`
+				HTML [][]int `json:"html"`
+			}
+			mustUnmarshal(raw, &r)
+			ex := byID[r.ID]
+			var parts []string
+			for _, h := range r.HTML {
+				if len(h) > 0 {
+					parts = append(parts, string(bytesOf(h)))
+				}
+			}
+			joined := ""
+			for _, p := range parts {
+				if joined != "" && !strings.HasSuffix(joined, "\n") {
+					joined += "\n"
+				}
+				joined += p
+			}
+			model := normSpec(joined)
+			want := normSpec(ex.HTML)
+			res.Evaluations++
+			if model == want {
+				agree++
+			} else {
+				why := outOfModelScope(ex.Markdown)
+				if why != "" {
+					outScope[why]++
+				} else {
+					differ = append(differ, map[string]any{"example": ex.Example, "section": ex.Section, "markdown": ex.Markdown, "spec": want, "model": model})
+				}
+			}
+		})
+		res.Extra["spec_examples_agree"] = agree
+		res.Extra["spec_examples_differ"] = differ
+		res.Extra["spec_examples_out_of_model_scope"] = outScope
+	}
 	return res
 }
